@@ -2,6 +2,7 @@ package rules
 
 import (
 	"fmt"
+	"os"
 	"go/token"
 	"go/types"
 	"sort"
@@ -563,14 +564,48 @@ func c09R5(c *core.Ctx) {
 				if len(x.Results) != 1 {
 					return false
 				}
-				if phi, isPhi := x.Results[0].(*ssa.Phi); isPhi && phi.Block() == x.Block() {
-					return false // decided per incoming edge below
+				if _, isPhi := x.Results[0].(*ssa.Phi); isPhi {
+					return false // decided per incoming edge of the phi (below)
 				}
 				return mayBeNil(x.Results[0], x)
 			case *ssa.If, *ssa.Jump:
+				b := in.Block()
+				// a phi further up that some return hands back (an inlined helper's error result
+				// tested by `if err != nil { return err }`): entering the phi's block through an
+				// edge that carries nil, can that return be reached (the path-sensitive search
+				// specialises the test of the phi to the value on the edge)?
+				for _, succ := range b.Succs {
+					for _, pi := range succ.Instrs {
+						phi, isPhi := pi.(*ssa.Phi)
+						if !isPhi {
+							break
+						}
+						var rets []ssa.Instruction
+						eng.Instrs(f, func(i2 ssa.Instruction) {
+							if r, ok := i2.(*ssa.Return); ok && len(r.Results) == 1 && r.Results[0] == ssa.Value(phi) && r.Block() != succ {
+								rets = append(rets, r)
+							}
+						})
+						if len(rets) == 0 {
+							continue
+						}
+						for k, p := range succ.Preds {
+							if p != b || !eng.IsNilConst(phi.Edges[k]) {
+								continue
+							}
+							for _, r := range rets {
+								if eng.ReachEdge(f, succ, k, isSet, func(i2 ssa.Instruction) bool { return i2 == r }) {
+									if os.Getenv("VERIF_DEBUG") != "" {
+										fmt.Println("DEBUG phi-edge", b.Index, succ.Index, k, phi.Name())
+									}
+									return true
+								}
+							}
+						}
+					}
+				}
 				// the last instruction of a predecessor of a `return phi(...)` block: the edge is a
 				// success edge if the value it carries may be nil on that edge
-				b := in.Block()
 				for _, succ := range b.Succs {
 					if len(succ.Instrs) == 0 {
 						continue
